@@ -138,25 +138,38 @@ def only_plumbing(sl, extra=()):
     return not callee_allow(sl, PLUMBING + list(extra))
 
 
-def eval_bool_paths(f, target_bb, target_op, atoms):
-    """Tiny exact evaluator for a boolean expression that is computed by control flow.
+def eval_bool_paths(f, target_bb, target_op, atoms, max_states=20000):
+    """Exact evaluator for a boolean expression that is computed by control flow and data flow.
 
-    atoms: {name: ("place", place_json_prefix_fn) | ("call", regex)} -- here given as a function
-    `classify(kind, node)` is avoided; instead `atoms` maps name -> predicate(kind, node) that says whether an
-    assignment / call defines that atom.  For every valuation of the atoms the CFG is walked from bb0 to
-    target_bb, switches on known booleans follow the valuation; returns {valuation-tuple: value} or raises
-    ValueError when the walk meets control flow it cannot decide (fail closed in the caller)."""
+    `atoms` maps name -> predicate(kind, node) saying whether an assignment ("assign", stmt) or a call
+    ("call", term) defines that atom.  For every valuation of the atoms ALL paths from bb0 to target_bb are
+    explored: switches on booleans whose value is known under the valuation follow it (this is how `a && b`,
+    `if !a { false } else { b }`, named flags and early exits are evaluated); every other switch (loop
+    conditions, matches on unrelated data) forks into each successor that can still reach the target.  The
+    operand must have the same known value on every such path.  Returns (names, {valuation-tuple: value}) or
+    raises ValueError when the value is not a function of the atoms (fail closed in the caller)."""
     names = sorted(atoms)
     table = {}
+    can_reach = {}
+
+    def reaches_target(b):
+        if b not in can_reach:
+            can_reach[b] = b == target_bb or target_bb in f.reachable(b)
+        return can_reach[b]
+
     for mask in range(1 << len(names)):
         val = {n: bool(mask >> i & 1) for i, n in enumerate(names)}
-        env = {}
-        bb = 0
-        steps = 0
-        while True:
-            steps += 1
-            if steps > 400:
-                raise ValueError("path too long")
+        results = set()
+        seen = set()
+        work = [(0, ())]
+        while work:
+            bb, env_t = work.pop()
+            if (bb, env_t) in seen:
+                continue
+            seen.add((bb, env_t))
+            if len(seen) > max_states:
+                raise ValueError("too many path states")
+            env = dict(env_t)
             blk = f.blocks[bb]
             for st in blk["st"]:
                 if st["s"] != "assign" or st["pl"]["p"]:
@@ -184,17 +197,17 @@ def eval_bool_paths(f, target_bb, target_op, atoms):
                 else:
                     env.pop(d, None)
             if bb == target_bb:
-                # statements of the target block up to the aggregate have been applied (the value is moved
-                # into the aggregate in this block)
+                # statements of the target block have been applied (the value is moved into the aggregate here)
                 l = operand_local(target_op)
                 if target_op.get("k") == "const" and target_op.get("val") and "int" in target_op["val"]:
-                    table[tuple(val[n] for n in names)] = bool(target_op["val"]["int"])
+                    results.add(bool(target_op["val"]["int"]))
                 elif l in env:
-                    table[tuple(val[n] for n in names)] = env[l]
+                    results.add(env[l])
                 else:
-                    raise ValueError("value of the operand is not a function of the atoms")
-                break
+                    raise ValueError("value of the operand is not a function of the atoms on some path")
+                continue
             t = blk["term"]
+            nxt = []
             if t["t"] == "call":
                 hit = [n for n in names if atoms[n]("call", t)]
                 if not t["dest"]["p"]:
@@ -202,21 +215,149 @@ def eval_bool_paths(f, target_bb, target_op, atoms):
                         env[t["dest"]["l"]] = val[hit[0]]
                     else:
                         env.pop(t["dest"]["l"], None)
-                if "to" not in t:
-                    raise ValueError("diverging call on the path")
-                bb = t["to"]
+                if "to" in t and t["to"] is not None:
+                    nxt = [t["to"]]
             elif t["t"] == "switch":
                 l = operand_local(t["discr"])
-                if l in env:
-                    bb = f.switch_target(bb, 1 if env[l] else 0)
+                if l in env and f.local_ty(l) == "bool":
+                    nxt = [f.switch_target(bb, 1 if env[l] else 0)]
+                    nxt = [x for x in nxt if x in f.succ(bb)]
                 else:
-                    succ = [s for s in f.succ(bb) if target_bb in f.reachable(s)]
-                    if len(succ) != 1:
-                        raise ValueError("undecided branch at a switch on the path")
-                    bb = succ[0]
+                    nxt = list(f.succ(bb))
             else:
-                s = f.succ(bb)
-                if len(s) != 1:
-                    raise ValueError("path ends before the target")
-                bb = s[0]
+                nxt = list(f.succ(bb))
+            et = tuple(sorted(env.items()))
+            for s in nxt:
+                if reaches_target(s):
+                    work.append((s, et))
+        if len(results) != 1:
+            raise ValueError("under %s the operand takes the values %s" % (val, sorted(results)) if results else "the construction site is unreachable under %s" % val)
+        table[tuple(val[n] for n in names)] = results.pop()
     return names, table
+
+
+# ----------------------------------------------------------------------------- closure-transparent origins
+# (generic; candidates for lib.py)
+def closure_captures(facts, g):
+    """For a closure Fn g: [(parent Fn, aggregate statement that builds g)] — the parent is g's lexical parent or,
+    for closures of an inlined helper, the function the helper was inlined into."""
+    if g.raw.get("kind") != "Closure":
+        return []
+    par = facts.F.get(g.raw.get("parent"))
+    cands = [par] if par is not None else []
+    cands += [h for h in facts.F.values() if g.raw.get("parent") in h.raw.get("inlined", []) and h is not par]
+    out = []
+    for h in cands:
+        reach = h.reachable(0)
+        for b, i, st in h.stmts():
+            rv = st["rv"]
+            if b in reach and rv["rv"] == "agg" and rv.get("agg") in ("closure", "coroutine", "coroutine_closure") and rv.get("def") == g.id:
+                out.append((h, st))
+    return out
+
+
+class Origin:
+    """Backward slice of a value that looks through closure captures: the slice in the function itself plus,
+    for every upvar the slice reads, the slice of the captured operand in the function that builds the closure
+    (transitively).  So `|x| .. required ..` inside `.map(..)` and `for x in .. { .. required .. }` have the same origin."""
+
+    def __init__(self, facts, fn, op, stop_at_calls=None, _depth=0):
+        self.parts = []          # [(Fn, Slice)]
+        self.unresolved = []     # upvar reads whose capture could not be found
+        self.item_params = []    # [(closure Fn, param index >= 2)]: closure arguments (iterator items, ..)
+        self.root_params = []    # [(Fn, param index)] of non-closure functions
+        sl = fn.slice(op, stop_at_calls=stop_at_calls)
+        self.parts.append((fn, sl))
+        is_closure = fn.raw.get("kind") == "Closure"
+        ups = set()
+        for a in sl.atoms:
+            if a[0] != "param":
+                continue
+            if not is_closure:
+                self.root_params.append((fn, a[1]))
+            elif a[1] >= 2:
+                self.item_params.append((fn, a[1]))
+            else:
+                k = [int(e[1:].split(":")[0]) for e in a[2] if e.startswith("f")][:1]
+                if k:
+                    ups.add(k[0])
+                else:
+                    self.unresolved.append((fn, a))
+        if ups:
+            caps = closure_captures(facts, fn)
+            if not caps or _depth > 4:
+                self.unresolved += [(fn, k) for k in ups]
+            for h, st in caps:
+                for k in sorted(ups):
+                    if k >= len(st["rv"]["ops"]):
+                        self.unresolved.append((fn, k))
+                        continue
+                    sub = Origin(facts, h, st["rv"]["ops"][k], stop_at_calls=stop_at_calls, _depth=_depth + 1)
+                    self.parts += sub.parts
+                    self.unresolved += sub.unresolved
+                    self.item_params += sub.item_params
+                    self.root_params += sub.root_params
+
+    def callees(self):
+        return [(f, c, bb, t) for f, sl in self.parts for c, bb, t in sl.callees]
+
+    def callee_names(self):
+        return sorted(set(c for f, c, bb, t in self.callees()))
+
+    def bad_callees(self, allow=()):
+        out = []
+        for f, sl in self.parts:
+            out += [c for c, bb in callee_allow(sl, PLUMBING + list(allow))]
+        return out
+
+    def has_call(self, pattern):
+        return any(sl.has_call(pattern) for f, sl in self.parts)
+
+    def reads_field(self, name):
+        return any(sl.reads_field(name) for f, sl in self.parts)
+
+    def computed(self):
+        """Atoms showing the value is computed rather than copied: literals, unary / binary operators."""
+        return sorted(set(a[0] for f, sl in self.parts for a in sl.atoms if a[0] in ("lit", "unop", "binop", "budget")))
+
+    def params_of(self, fn):
+        return sorted(set(i for f, i in self.root_params if f is fn))
+
+    def field_bases(self, name):
+        """{(fn id, local, projection prefix)} of every place in the slice that selects field `name`:
+        the object the field is read from."""
+        import json as _json
+        out = set()
+        for f, sl in self.parts:
+            for p in sl.places:
+                pl = _json.loads(p)
+                for i, e in enumerate(pl["p"]):
+                    if isinstance(e, dict) and e.get("n") == name:
+                        out.add((f.id, pl["l"], _json.dumps(pl["p"][:i], sort_keys=True)))
+        return out
+
+    def is_plain_copy_of_param(self, fn, idx):
+        """The value is that parameter of fn and nothing else (no calls, literals or operators on the way)."""
+        return not self.unresolved and not self.item_params and not self.callees() and not self.computed() and \
+            [(f.id, i) for f, i in set(self.root_params)] == [(fn.id, idx)]
+
+
+def params_of_type(fn, ty):
+    """Parameter locals of fn whose declared type is `ty` (role anchor that survives renaming)."""
+    return [i for i in range(1, fn.argc + 1) if fn.local_ty(i) == ty]
+
+
+def const_bool_operand(fn, op):
+    """True / False if the operand is a boolean literal (directly or through let-bound copies), else None."""
+    sl = fn.slice(op)
+    vals = set()
+    for a in sl.atoms:
+        if a[0] == "lit" and a[2] == "bool":
+            try:
+                import json as _json
+                vals.add(bool(_json.loads(a[1])["int"]))
+            except Exception:
+                return None
+        else:
+            return None
+    return vals.pop() if len(vals) == 1 and not sl.callees else None
